@@ -119,7 +119,7 @@ def run(ctx):
     ]
     # the LB policy re-publishes the SAME (stateful) picker object whose result has changed: still a publication
     scopes.append(("g5", dict(rpcs=["a"], ff=[], canc=[], maxgen=ctx.pick(2, 3), kinds=["nosc", "notready", "ok", "err"], flips=0,
-                              reswap=True), ctx.pick(600, None)))
+                              reswap=True), ctx.pick(600, 12000)))
     if not ctx.quick():
         scopes.append(("g4", dict(rpcs=["a", "b"], ff=["a"], canc=["b"], maxgen=2, kinds=["ok", "notready", "nosc", "err"],
                                   flips=1), 12000))
